@@ -35,7 +35,7 @@ from props import c12
 from vlib.core import SRC, Ctx, src_sha
 
 # cost bound B = N (d+1)^2 for the kernel-checked grids; measured: ~0.33 us * d per unit (vm_compute, BigZ)
-B_QUICK = 300_000
+B_QUICK = 1_000_000
 B_THOROUGH = 12_000_000
 TOL_INT = 1e-9
 TOL_SPHERE = 1e-13
@@ -43,6 +43,7 @@ CORPUS = [("ahrens_beylkin", 39), ("ahrens_beylkin", 127)]
 MAXREP = 5            # grids reported per (method, kind of violation)
 REFUTE_MAX = 3_000_000  # N*(l+1) bound for a kernel-checked refutation
 SHORT = {"lebedev": "lebedev", "spherical": "spherical", "maxdet": "maxdet", "ahrens_beylkin": "ab"}
+DEFAULT_MODE = {"lebedev": "Times4Pi", "spherical": "Times4Pi", "maxdet": "AsStored", "ahrens_beylkin": "AsStored"}
 PI_LO = Fraction(3141592653589793238462643383279, 10**30)
 PI_HI = Fraction(3141592653589793238462643383280, 10**30)
 
@@ -336,7 +337,16 @@ def run(ctx: Ctx):
 
     importlib.reload(ga)
     tabs, units = c12.extract_tables(ctx)
-    mode = gen_rules(ctx)
+    gen_broken = None
+    try:
+        mode = gen_rules(ctx)
+    except ValueError as e:
+        # fail closed, but keep going with the last known rule so that the oracle can still produce a concrete failing input
+        gen_broken = str(e)
+        mode = dict(DEFAULT_MODE)
+        ctx.gen("C02_gen.v", "From P Require Import C02_model.\n" + "".join(f"Definition mode_{m} : norm_mode := {v}.\n" for m, v in mode.items()))
+        ctx.fail("gen_rules", "gen:angular.py:normalisation/loader", None,
+                 f"the normalisation / loader code of AngularGrid is outside the translated shape: {gen_broken}", found_input=False)
     ctx.gen_units += units
     B = B_QUICK if ctx.quick else B_THOROUGH
     grids = []  # (meth, dirn, deg, size, cost)
@@ -352,7 +362,7 @@ def run(ctx: Ctx):
     except OSError:
         load = 0.0
     share = 16.0 if load < 8 else max(1.0, 16.0 * 16.0 / (16.0 + load))
-    cpu_budget = share * (50.0 if ctx.quick else 800.0)
+    cpu_budget = share * (40.0 if ctx.quick else 800.0)
     est_cpu = lambda g: g[4] * max(g[2], 8) * 0.45e-6
     acc, B_eff = 0.0, B
     for g in sorted(grids, key=lambda g: g[4]):
@@ -378,7 +388,7 @@ def run(ctx: Ctx):
         for g in under:
             jobs[(g[0], g[2])] = (g[0], g[2], g[3], g[2])
         est = lambda g: g[4] * 4e-9  # seconds of one worker for the full-degree float64 sweep (measured)
-        pool = [g for g in above if est(g) <= 25.0]
+        pool = sorted((g for g in grids if est(g) <= 25.0 and g[4] > B_QUICK), key=lambda g: (g[0], g[2]))
         budget, pick = 100.0, []
         for g in ctx.rng.sample(pool, len(pool)):
             if est(g) <= budget:
@@ -686,6 +696,12 @@ def run(ctx: Ctx):
                  {"reproduce": f"AngularGrid(degree={deg}, method='{meth}', cache=False)"}, found_input=False)
 
     # ---------------- evidence
+    for k in list(CORPUS) + [k for k in sorted(sweep) if not sweep[k]["viol"]][:3]:
+        if k in sweep:
+            r = sweep[k]
+            ctx.sample({"oracle": f"AngularGrid(degree={k[1]}, method='{k[0]}')", "N": r["size"], "lmax_checked": r["lmax"],
+                        "wsum_minus_4pi": r.get("wsum_err"), "max_abs_r2_minus_1": r.get("max_r2"),
+                        "largest_harmonic_error": list(r["worst"]) if r.get("worst") else None, "violations": r["viol"]})
     worst = sorted(((r["worst"][2], f"{k[0]}_{k[1]}", r["worst"][:2]) for k, r in sweep.items() if r.get("worst") and not r["viol"]), reverse=True)[:3]
     ctx.cov["largest_healthy_errors"] = [{"grid": g, "lm": list(lm), "abs_error": e} for e, g, lm in worst]
     ctx.cov["B"] = B
